@@ -6,6 +6,7 @@ import (
 	"fmt"
 	"hash/crc32"
 	"io/ioutil"
+	"encoding/json"
 	"os"
 	"path/filepath"
 	"sort"
@@ -83,6 +84,24 @@ type l2Case struct {
 	Kind string `json:"kind"`
 	Cfg  l2cfg  `json:"cfg"`
 	Ops  []l2op `json:"ops"`
+	Stop string `json:"stop,omitempty"` // why the generator ended the write phase early (known finding F24)
+}
+
+// spilledPastHead: a GC pass left data in a file ABOVE the one receiving appends (known finding F24: a record larger
+// than DataFileMax pushes the GC destination past the collected range).  The next client write that rotates into
+// such a file is placed at offset 0 over the relocated records and the following flush ends the process with
+// logger.Fatalf("wrong data file size ..."), so a history must not issue writes in that state; the generator ends
+// its write phase there and the closing sweep (reads, restart, reads) still runs.
+func spilledPastHead(d *l2dir, head int) bool {
+	if d == nil {
+		return false
+	}
+	for _, f := range d.Data {
+		if f.Chunk > head && f.Size > 0 {
+			return true
+		}
+	}
+	return false
 }
 
 // independent record scanner (stdlib CRC, no store code)
@@ -234,7 +253,24 @@ func zinfoOf(klen int, v []byte) [3]int {
 	return z
 }
 
+// VERIF_TRACE=<file>: every operation is appended to the file BEFORE it runs (to recover the history when the
+// implementation kills the process, e.g. logger.Fatalf)
+var l2trace *os.File
+
+func l2mark(v interface{}) {
+	if l2trace == nil {
+		if p := os.Getenv("VERIF_TRACE"); p != "" {
+			l2trace, _ = os.OpenFile(p, os.O_CREATE|os.O_WRONLY|os.O_APPEND, 0644)
+		}
+	}
+	if l2trace != nil {
+		b, _ := json.Marshal(v)
+		l2trace.Write(append(b, '\n'))
+	}
+}
+
 func (r *l2runner) exec(op *l2op) {
+	l2mark(op)
 	k, _ := hex.DecodeString(op.K)
 	key := string(k)
 	switch op.Op {
@@ -503,6 +539,9 @@ func genValue(r *Rng, numeric bool) []byte {
 func init() {
 	suites["l2"] = func(seed uint64, count int, out *Out, args []string) error {
 		loghub.ErrorLogger.SetLevel(loghub.FATAL)
+		if os.Getenv("VERIF_TRACE") != "" {
+			loghub.ErrorLogger.SetLevel(loghub.DEBUG)
+		}
 		r := NewRng(seed)
 		mode := "plain"
 		if len(args) > 0 {
@@ -570,6 +609,7 @@ func init() {
 					numeric[j] = true
 				}
 			}
+			l2mark(map[string]interface{}{"case": i, "cfg": run.cfg})
 			if err := run.open(); err != nil {
 				return err
 			}
@@ -666,6 +706,7 @@ func init() {
 					}
 				case p < 89+restartP+gcP:
 					// resolve a range with the real range check, then run the pass
+					l2mark(map[string]interface{}{"op": "F", "hidden": true})
 					run.hs.VerifFlush()
 					cr := l2op{Op: "CR", A: r.Intn(10) - 2, B: r.Intn(10) - 2, Days: []int{-1, 1, 1, 2, 5, 40}[r.Intn(6)]}
 					fl := l2op{Op: "F", Res: "OK"}
@@ -692,6 +733,11 @@ func init() {
 						m := l2op{Op: "M", K: hex.EncodeToString(k)}
 						run.exec(&m)
 						c.Ops = append(c.Ops, m)
+					}
+					if spilledPastHead(op.Dir, run.hs.VerifHead(cf.Bucket)) {
+						c.Stop = "gc-spilled-past-head"
+						n = nops // ends the write phase; the closing sweep below still runs
+						continue
 					}
 					if r.Chance(35) { // the same pass again must release nothing
 						cr2 := l2op{Op: "CR", A: cr.A, B: cr.B, Days: cr.Days}
